@@ -3,22 +3,27 @@
 // C16 — the AutoNAT v2 server cannot be used for amplification and obeys its rate limits.
 //
 // Full-stack, lock-level simulation. Real nodes on simnet (basic host, identify, swarm, TCP dial
-// path, upgrader, Noise, yamux — all instrumented, plus the instrumented autonatv2 package):
+// path, upgrader, Noise, multistream, yamux — all instrumented, plus the instrumented autonatv2 package):
 //
-//	S  1.2.3.4:4001  the host the AutoNAT v2 service is started on (autonatv2.New(D.Host, WithServerRateLimit(...)); Start(S.Host))
-//	D  1.2.3.5:4001  the service's dialer host: every dial-back is a logged simnet dial with From = 1.2.3.5
+//	S  1.2.3.4:4001  the host the AutoNAT v2 service is started on (autonatv2.New(dialer, WithServerRateLimit(...)); Start(S.Host))
+//	D  1.2.3.5       the service's dialer host, built the way libp2p.New builds it (config.makeAutoNATV2Host): a dial-only
+//	                 swarm (no-delay dial ranker, read-only black-hole detector) under a BLANK host — no identify.
+//	                 Every dial-back is a logged simnet dial with From = 1.2.3.5.
 //	V  9.9.9.9:4001  the amplification victim: a node that never talks to S and serves dial-back only to notice misuse
-//	C0..C4  5.6.7.(10+i):4001, second listener on 7.7.(10+i).1:4001  byzantine clients (client_test.go)
+//	C0..C4  5.6.7.(10+i):4001, second listener on 7.7.(10+i).1:4001 (two clients may share an IP; a client may announce
+//	                 V's address through identify)  byzantine clients (client_test.go)
 //
-// The clients speak /libp2p/autonat/2/dial-request raw. One run = a drawn configuration of the four
-// limits, a population of 2-5 clients and 1-14 requests launched at drawn virtual instants (gaps 0 ..
-// 75 s, so that bursts, concurrent requests of one peer and the edges of the one-minute window
-// occur), each with a drawn address list (own / own second IP / victim / other client / S / dead
-// public IPv4+IPv6 / private / no transport / not a multiaddr / D itself / foreign /p2p suffix; length 0,
-// 1-4, 50-52, 120), a drawn request shape (normal, wrong first message, half a request then pause,
-// oversized) and a drawn dial-data script (correct, short by 1..n-150 bytes, tiny messages, varied
-// message sizes incl. 8186 B, frames that are not protobuf, early close/reset, a message of more
-// than 8192 B, pauses before / in the middle).
+// The clients speak /libp2p/autonat/2/dial-request raw. One run = a stratum (general mix | concurrency |
+// one tight per-minute limit: global, per-peer, dial-data), a drawn configuration of the four limits, a
+// population of 2-5 clients and 1-14 requests launched at drawn virtual instants (gaps 0 .. 75 s, so that
+// bursts, concurrent requests of one peer and the edges of the one-minute window occur), each with a drawn
+// address list (own / own IP dead port / own second IP / victim / other client / S / dead public IPv4+IPv6 /
+// private / no transport / not a multiaddr / D's IP / own or foreign /p2p suffix; length 0, 1-4, 50-52, 120),
+// a drawn request shape (normal, wrong first message, half a request then pause then rest or reset,
+// oversized) and a drawn dial-data script (correct exact/overshooting, short by 1..n-150 bytes, tiny
+// messages, varied message sizes incl. 8186 B, frames that are not protobuf, early close/reset, a message
+// of more than 8192 B, pauses before / in the middle) and a drawn dial-back handler (answer, delayed answer,
+// reset, close without answer).
 //
 // math/rand's global source (dial-data size, wait before the dial) is pinned per run from the tape
 // (randseednop=0 + rand.Seed); the oracles do not depend on it: the requested size is read from the
@@ -33,15 +38,20 @@
 //	                                            after the client saw the request end, so a grace period is allowed and
 //	                                            ANY peer's request justifies the target.
 //	C16/dial-to-ineligible-address              ... appears only as an entry that is surely not public+dialable
-//	C16/amplification/...                       no candidate request justifies the dial: for each candidate the target IP
+//	C16/amplification/dial-without-dial-data-request, C16/amplification/dial-before-dial-data-complete
+//	                                            no candidate request justifies the dial: for each candidate the target IP
 //	                                            differs from the client's IP and the client had not STARTED writes
 //	                                            carrying >= the requested number of dial-data bytes before the dial's
 //	                                            start stamp (bytes are credited when the write starts = weakest;
 //	                                            well-formed DialDataResponse frames are credited with their data length,
 //	                                            frames that are not protobuf with their full length on the wire)
 //	C16/dial-data-request-out-of-range          DialDataRequest.NumBytes outside [30000, 100000]
-//	C16/dial-back-stream-to-other-peer          the victim (or a client that has no such request) received a dial-back stream
-//	C16/dial-back-on-unrequested-address        the dial-back connection arrived on an address the request did not name
+//	C16/dial-back-stream-to-other-peer/{victim,client}
+//	                                            the victim, or a client none of whose requests carries the nonce, received a
+//	                                            dial-back stream
+//	C16/dial-back-on-unrequested-address        the dial-back connection arrived on an address that no request of that client
+//	                                            in service names (DESIGN reading: "an eligible address of one of ITS in-flight
+//	                                            requests" — the dialer keeps one connection per peer, see observation 2)
 //	C16/no-eligible-address-not-refused         a request whose entries are all surely ineligible got status OK or a dial-back
 //	                                            (weaker reading: a DialDataRequest alone is not counted as "not refused")
 //	C16/rate-limit-exceeded/{global,per-peer,dial-data}
@@ -62,10 +72,54 @@
 //	                                            converse reading of "obeys its limits" (a limiter whose in-flight counter leaks
 //	                                            serves fewer than the configured number); it is kept apart in its own class.
 //
-// Sensitivity (mutations of the instrumented overlay copy of server.go, one at a time, 8 workers):
-// see the table at the end of this comment block (filled in after the experiments).
+// Sensitivity. Mutations of the instrumented overlay copy of server.go, one at a time, 8 workers x <= 40 s
+// (all caught; "t" = wall seconds until the first / the slowest of the 8 workers reported, machine shared):
 //
-// MUTATIONS-TABLE-PLACEHOLDER
+//	dial although getDialData failed (error ignored)            amplification/dial-before-dial-data-complete   t 4..13
+//	readDialData returns after the first >=100 B message        amplification/dial-before-dial-data-complete   t 6..10
+//	policy compares the observed IP with itself (never data)    amplification/dial-without-dial-data-request   t 2..7
+//	policy inverted (data only for the same IP)                 amplification/dial-without-dial-data-request   t 3..10
+//	remain starts at numBytes/2                                 amplification/dial-before-dial-data-complete   t 8..20
+//	remain -= len(msg) (framing counted as dial data)           amplification/dial-before-dial-data-complete   t 13..29
+//	loop ends at remain > 1 (one byte fewer accepted)           amplification/dial-before-dial-data-complete   t 13..30
+//	every valid address of the request handed to the dialer     amplification/* , dial-to-unrequested-address  t 11..20
+//	cleanup drops one extra live global entry                   rejected-below-every-limit, rate-limit-exceeded/global   t 7..40
+//	tumbling instead of sliding window                          rate-limit-exceeded/global, /per-peer          t 14..20
+//	cleanup drops one extra live per-peer entry                 rate-limit-exceeded/per-peer                   t 14..29
+//	cleanup drops one extra live dial-data entry                rate-limit-exceeded/dial-data                  t 11..35
+//	window of 50 s                                              rate-limit-exceeded/global, /per-peer          t 17..32
+//	global / per-peer / dial-data limit off by one (> for >=)   rate-limit-exceeded/<the limit>                t 1..18
+//	dial-data limiter not consulted                             rate-limit-exceeded/dial-data                  t 10..49
+//	concurrent limit off by one (> for >=)                      concurrent-requests-exceeded                   t 5..9
+//	inProgressReqs never incremented                            concurrent-requests-exceeded                   t 8..14
+//	CompleteRequest never called                                rejected-below-every-limit                     t 8..14
+//	private addresses not skipped                               dial-to-ineligible-address, no-eligible-address-not-refused   t 11..38
+//	CanDial not consulted                                       no-eligible-address-not-refused                t 16..53
+//	NumBytes = 100 + rand (below 30000)                         dial-data-request-out-of-range                 t 5..13
+//	dial-back carries the previous request's nonce              dial-back-stream-to-other-peer/client          t 4..32
+//
+// Observations on the unchanged tree (none is a violation of the statement for the shipped configuration; recorded
+// for DESIGN.md by the lead):
+//
+//  1. API hazard when the dialerHost passed to autonatv2.New runs identify (a basic host instead of the blank host
+//     libp2p.New gives it; C16_BASIC_DIALER=1 builds that world, the registered check never sets it).
+//     server.dialBack dials Connect(AddrInfo{ID: p}) = every address the dialer's peerstore holds for p, and its cleanup
+//     (ClosePeer; ClearAddrs; RemovePeer) races with identify's asynchronous netNotifiee.Disconnected, which reads
+//     Addrs(p) — the listen addresses the client ANNOUNCED — before ClearAddrs and re-adds them with
+//     RecentlyConnectedAddrTTL (15 min) after it.  The next dial-back for that peer then dials addresses no request
+//     named, without dial data, and answers OK/OK for an address it did not dial.  Minimised history
+//     (finding-identify-dialer.replay.json; clean without the env var): C1 = 5.6.7.11 with second listener
+//     7.7.11.1.  R0 of C1 names only /ip4/7.7.11.1/tcp/4001, is asked for 32304 B, writes 32768 B, D dials
+//     7.7.11.1:4001 at 2.99 s, dial-back delivered, cleanup.  R5 of C1 names only /ip4/7.7.11.1/tcp/4001 again, is
+//     asked for 55610 B, writes 57344 B, and at 4.56 s D dials 5.6.7.11:4001 — named by no request, learnt through
+//     identify during R0's connection — and delivers R5's nonce there; R5 is answered OK/OK@0.
+//     Classes C16/dial-to-unrequested-address and C16/dial-back-on-unrequested-address.  A one-line mitigation would
+//     be ClearAddrs(p) before AddAddr in dialBack.
+//  2. Two concurrent requests of one peer share the dialer's single connection and peerstore entry: C1's R1 names
+//     5.6.7.11:4999 (nobody listens), R2 names 5.6.7.11:4001 at the same instant; D dials :4001 once, R1's nonce is
+//     delivered over that connection and R1 is answered OK/OK@0 for the dead address.  The statement does not speak
+//     about the truthfulness of the answer (the real client rejects it through areAddrsConsistent); the probe
+//     dial-back-over-connection-of-sibling-request counts these.
 package c16
 
 import (
@@ -78,9 +132,9 @@ import (
 	"testing"
 	"time"
 
+	"github.com/libp2p/go-libp2p/core/host"
 	"github.com/libp2p/go-libp2p/core/peer"
 	"github.com/libp2p/go-libp2p/core/peerstore"
-	"github.com/libp2p/go-libp2p/core/host"
 	basichost "github.com/libp2p/go-libp2p/p2p/host/basic"
 	blankhost "github.com/libp2p/go-libp2p/p2p/host/blank"
 	"github.com/libp2p/go-libp2p/p2p/net/swarm"
@@ -116,7 +170,9 @@ type world struct {
 	done     int
 }
 
-func key(ip string, port int) string { return net.JoinHostPort(net.ParseIP(ip).String(), fmt.Sprint(port)) }
+func key(ip string, port int) string {
+	return net.JoinHostPort(net.ParseIP(ip).String(), fmt.Sprint(port))
+}
 
 func maToKey(a ma.Multiaddr) (string, error) {
 	na, err := manet.ToNetAddr(a)
@@ -397,7 +453,7 @@ func run(t *testing.T, tape *simrt.Tape) *common.Outcome {
 	}
 
 	var nodes []*simhost.Node
-	res := simrt.Run(t, simrt.Config{MaxSteps: 6000000, IdleLimit: 24 * time.Hour, TraceCap: 2000}, tape.S, func() {
+	res := simrt.Run(t, simrt.Config{MaxSteps: 1000000, IdleLimit: 24 * time.Hour, TraceCap: 2000}, tape.S, func() {
 		rand.Seed(seed)
 		n := simnet.New(tape.S, simnet.Config{Mode: mode, Latencies: lat})
 		w.n = n
